@@ -23,4 +23,4 @@ g.add_dependency('c', 'a')
 g.finalize()
 r2 = [n.key for n in g.get_ordered()]
 print('2-cycle + c->a   ->', r2, "(requirement 'a after b' silently broken)")
-raise SystemExit('no error was raised for unmeetable requirements')
+raise SystemExit("no error was raised for unmeetable requirements")  # not reached since fix b1a0688
